@@ -640,6 +640,9 @@ def execute(history, opts=None):
                 snaps = _snaps(W)
                 ctx.count("results_kept")
             ctx.event(step, kind, "%s(%s,%s)=%s%s" % (q, ta, tb, disc(r), "" if not changed else "#changed"))
+            va = W.e[a]["ver"]
+            vb = W.e[b]["ver"] if b is not None else 0
+            ctx.count("state:%s/%s(%s)x%s(%s)/mut=%s%s/%s" % (q, ta, W.e[a]["kind"], tb, W.e[b]["kind"] if b is not None else "-", min(va, 2), min(vb, 2), "raise" if isinstance(r, Raised) else ("none" if r is None else "val")))
         elif kind == "COLD_REPLAY":
             # K3: a world that has never seen a query gives the same answers
             cur = [x for x in asked if x[2] in W.e and (x[3] is None or x[3] in W.e) and (x[6] is None or x[6] in W.e) and W.versions(x[2], x[3], x[6]) == x[4]]
